@@ -135,6 +135,11 @@ pub trait ParserCase {
     }
     fn token_kind_names(&self) -> &'static [&'static str];
     fn run(&self, input: &[u8], cfg: &RunCfg) -> RunOut;
+    /// One parser value reused for a sequence of `parse` calls (state that
+    /// survives a call: builder stack, layout parser, file name ...).
+    fn run_seq(&self, _inputs: &[Vec<u8>], _cfg: &RunCfg) -> Vec<RunOut> {
+        vec![]
+    }
     /// Does any recognizer of the grammar match a string that begins with
     /// this text?  (start-up guard of C12's W variant)  None for byte parsers.
     fn any_recognizer_matches(&self, _text: &str) -> Option<bool> {
@@ -458,6 +463,36 @@ macro_rules! lr_case {
                 }));
                 finish_run(r)
             }
+            fn run_seq(&self, inputs: &[Vec<u8>], cfg: &RunCfg) -> Vec<RunOut> {
+                let texts: Vec<Option<&str>> = inputs.iter().map(|b| std::str::from_utf8(b).ok()).collect();
+                let lexer = FaultLexer {
+                    inner: rustemo::StringLexer::<g::Context<'_, str>, _, _, _, _>::new($skip_ws, &g::RECOGNIZERS),
+                    all: g::ALL_TOKEN_KINDS,
+                };
+                let parser = rustemo::LRParser::new(&DEF, g::State::default(), $partial, $has_layout, lexer, rustemo::TreeBuilder::new());
+                use rustemo::Parser as _;
+                let mut outs = vec![];
+                for t in texts {
+                    sim_reset(cfg);
+                    let t = match t {
+                        Some(t) => t,
+                        None => {
+                            outs.push(finish_run(Ok(Out::NotApplicable)));
+                            continue;
+                        }
+                    };
+                    let r = std::panic::catch_unwind(std::panic::AssertUnwindSafe(|| match parser.parse(t) {
+                        Ok(tree) => {
+                            let mut l = vec![];
+                            leaves(&tree, &mut l);
+                            Out::Ok { leaves: l, solutions: 1 }
+                        }
+                        Err(e) => error_to_out(e),
+                    }));
+                    outs.push(finish_run(r));
+                }
+                outs
+            }
         }
         Box::new(C) as Box<dyn ParserCase>
     }};
@@ -530,6 +565,50 @@ macro_rules! glr_case {
                     }
                 }));
                 finish_run(r)
+            }
+            fn run_seq(&self, inputs: &[Vec<u8>], cfg: &RunCfg) -> Vec<RunOut> {
+                let texts: Vec<Option<&str>> = inputs.iter().map(|b| std::str::from_utf8(b).ok()).collect();
+                let lexer = FaultLexer {
+                    inner: rustemo::StringLexer::<g::Context<'_, str>, _, _, _, _>::new($skip_ws, &g::RECOGNIZERS),
+                    all: g::ALL_TOKEN_KINDS,
+                };
+                let parser: rustemo::GlrParser<'_, g::State, _, g::ProdKind, g::TokenKind, g::NonTermKind, CountingDef<g::Def>, str, ()> =
+                    rustemo::GlrParser::new(&DEF, $partial, $has_layout, lexer);
+                use rustemo::Parser as _;
+                let mut outs = vec![];
+                for t in texts {
+                    sim_reset(cfg);
+                    let t = match t {
+                        Some(t) => t,
+                        None => {
+                            outs.push(finish_run(Ok(Out::NotApplicable)));
+                            continue;
+                        }
+                    };
+                    let r = std::panic::catch_unwind(std::panic::AssertUnwindSafe(|| match parser.parse(t) {
+                        Ok(forest) => {
+                            if $cyclic {
+                                return Out::Ok { leaves: vec![], solutions: 0 };
+                            }
+                            let l = std::panic::catch_unwind(std::panic::AssertUnwindSafe(|| {
+                                let mut l = vec![];
+                                if let Some(tree) = forest.get_first_tree() {
+                                    let mut b = rustemo::TreeBuilder::<str, g::ProdKind, g::TokenKind>::new();
+                                    let node = tree.build::<_, g::State>(&mut b);
+                                    leaves(&node, &mut l);
+                                }
+                                l
+                            }));
+                            match l {
+                                Ok(l) => Out::Ok { leaves: l, solutions: 1 },
+                                Err(_) => Out::Ok { leaves: vec![], solutions: 0 },
+                            }
+                        }
+                        Err(e) => error_to_out(e),
+                    }));
+                    outs.push(finish_run(r));
+                }
+                outs
             }
         }
         Box::new(C) as Box<dyn ParserCase>
